@@ -564,7 +564,9 @@ def plan(tier, seed):
 
 def setup_lines():
   vmode.setup()
-  V.monitor_lines(vmode.executor_code_objects())
+  from openhtf.core import test_state as _ts  # pylint: disable=g-import-not-at-top
+  # also what the abort call may compute for its log lines: str(test_state) reads the running phase
+  V.monitor_lines(vmode.executor_code_objects() + V.code_objects_of(_ts.TestState.__str__, _ts.TestState.last_run_phase_name))
 
 
 def run_job(job, acct):
@@ -622,6 +624,17 @@ def run_job(job, acct):
       swept += 1
       for k2 in inner:
         for c in (0, 1, 2):
+          case = dict(base, plan={str(k): inj1, str(k2): c})
+          r, _ = check(case)
+          record(case, r)
+  # whatever the abort call itself computes from the live test state (descriptions for its log lines) runs while the
+  # executor moves on: one preemption between any two lines of it, at every abort position that executes such lines
+  if job['via'] == 'thread' and job['template'] in ('plain3', 'group') and not job.get('rerun') and 'cancel' not in job:
+    for k in ks:
+      s1, _, _ = run_case(dict(base, plan={str(k): inj1}), trace=True)
+      inner = [kk for kk, tidx, tg in s1.tags if kk > k and tg and tg[0] == 'line' and tg[1] in ('last_run_phase_name', '__str__')]
+      for k2 in inner:
+        for c in (0, 1, 2, 3, 4):
           case = dict(base, plan={str(k): inj1, str(k2): c})
           r, _ = check(case)
           record(case, r)
